@@ -109,6 +109,9 @@ def get_type_graph(t: type) -> graphlib.TopologicalSorter[TypeNode]:
         in a closed loop which never terminates (infinite recursion).
     """
     graph: graphlib.TopologicalSorter = graphlib.TopologicalSorter()
+    # A bare type variable stands for its bound, its constraints or `Any`.
+    if type(t) is typing.TypeVar:
+        t = inspection.normalize_typevar(t)
     u = inspection.unwrap(t)
     root = TypeNode(t, u)
     # For subscripted generics we also track the types on the path from the root, so
@@ -219,4 +222,10 @@ def _level(t: typing.Any) -> typing.Iterable[tuple[str | None, type]]:
     is_structured = inspection.isstructuredtype(t)
     members = inspection.get_type_hints(t, exhaustive=is_structured)
     yield from ((None, t) for t in args)
-    yield from members.items()
+    # A member annotated with a bare type variable is reduced like a generic argument.
+    yield from (
+        (name, inspection.normalize_typevar(hint))
+        if type(hint) is typing.TypeVar
+        else (name, hint)
+        for name, hint in members.items()
+    )
